@@ -117,7 +117,9 @@ def _rotation_scipy_idiom(prog: Program, L: Ledger, f: FuncInfo, inl) -> bool:
 
 def _translate(f: FuncInfo, table=None, binds=None, extra_hooks=(), prog=None):
     if prog is not None:
-        f = flat(prog, f, f.cls)
+        # helpers of an operation are seen through even when public (apply_mask, exponential_map …); calculate()
+        # of other operations stays a call
+        f = flat(prog, f, f.cls, public_methods=True, keep=("calculate", "integrate", "to_dict", "from_dict"))
     vocab = Vocabulary(table or {}, default_assumptions={"real": True})
     for k, v in (binds or {}).items():
         vocab.bind(k, v)
